@@ -119,7 +119,7 @@ PROPS['C13'] = {
                 'sin_cos / tan / to_radians uninterpreted'],
     'undecided_clauses': [
         'commutation of every predicate and measure of the crate with exact similarity maps (only stated as lemmas over the spec functions of C02/C05 where those functions are proved equal to their specs)',
-        'AffineTransform::skew constructor (uses abs and a float literal threshold): its matrix is not proved, only which origin the Skew layer passes to it',
+        'AffineTransform::skew: shear shape and fixed origin are proved for whatever values tan returns; that those values are the tangents of the angles is not (trigonometric functions uninterpreted)',
         'Rotate/Scale/Skew/Translate trait layer (unit c13_layer): WHICH matrix about WHICH origin is proved against abstract AffineOps / Centroid / BoundingRect / matrix constructors; that AffineOps applies the matrix to every coordinate of every geometry type (map_coords) is assumed',
         'inverse for general float matrices (rounding); only None <=> singular on the lattice and exact cases',
     ],
